@@ -37,6 +37,7 @@ const char *w_violation_text(void);
 void w_reset(void);
 void w_buf(int is_shared, size_t bsz, size_t usz);
 void w_group(const uint8_t *name, size_t nlen, int has_name, int disable);
+void w_group_alias(const uint8_t *name, size_t nlen, int has_name, int disable, int src);
 void w_cmd(const uint8_t *name, size_t nlen, const uint8_t *d, size_t dlen, int has_desc,
            int need_all, int only_test, int disable, int implicit, int hmask);
 void w_var(const uint8_t *name, size_t nlen, int has_name, int type, size_t size, int access,
